@@ -594,7 +594,7 @@ candidateは、それぞれ `(:id id :candidate-id candidate-id :candidate value
 
 ここでの促音は、 `tt' のように子音を重ねたもののみを判定する。
 "
-  (let ((consonants '(?t ?b ?j ?f ?h ?s ?w ?r ?y ?p ?k ?g ?z ?c ?v)))
+  (let ((consonants '(?t ?b ?j ?f ?h ?s ?w ?r ?y ?p ?k ?g ?z ?c ?v ?d ?m ?x)))
     (and (>= (length input) 2)
          (equal (aref input 0) (aref input 1))
          (member (aref input 0) consonants)
